@@ -1,0 +1,91 @@
+//go:build verif
+
+// Package veriftrace emits verification trace events (enabled with -tags verif).
+package veriftrace
+
+import (
+	"reflect"
+	"sort"
+
+	"github.com/jmattheis/goverter/xtype"
+)
+
+var (
+	// Sink receives every event; nil disables tracing.
+	Sink func(ev map[string]any)
+	seq  int
+)
+
+// Reset restarts the sequence counter.
+func Reset() { seq = 0 }
+
+// Emit records one event; kv are alternating keys and values.
+func Emit(ev string, kv ...any) {
+	if Sink == nil {
+		return
+	}
+	seq++
+	rec := map[string]any{"ev": ev, "seq": seq}
+	for i := 0; i+1 < len(kv); i += 2 {
+		rec[kv[i].(string)] = norm(kv[i+1])
+	}
+	Sink(rec)
+}
+
+func norm(v any) any {
+	switch x := v.(type) {
+	case nil:
+		return ""
+	case *xtype.Type:
+		return Describe(x, 1)
+	case map[string]*xtype.Type:
+		return keys(x)
+	case error:
+		return x.Error()
+	}
+	rv := reflect.ValueOf(v)
+	if rv.Kind() == reflect.Map && rv.Type().Key().Kind() == reflect.String {
+		ks := []string{}
+		for _, k := range rv.MapKeys() {
+			ks = append(ks, k.String())
+		}
+		sort.Strings(ks)
+		return ks
+	}
+	if rv.Kind() == reflect.Slice && rv.IsNil() {
+		return []any{}
+	}
+	return v
+}
+
+func keys(m map[string]*xtype.Type) []string {
+	ks := make([]string, 0, len(m))
+	for k := range m {
+		ks = append(ks, k)
+	}
+	sort.Strings(ks)
+	return ks
+}
+
+// Describe is a shallow projection of the features of a type the rule chain looks at.
+func Describe(t *xtype.Type, depth int) map[string]any {
+	if t == nil {
+		return map[string]any{"str": ""}
+	}
+	d := map[string]any{
+		"str": t.String, "named": t.Named, "basic": t.Basic, "ptr": t.Pointer, "list": t.List, "fixed": t.ListFixed,
+		"map": t.Map, "struct": t.Struct, "iface": t.Interface, "sig": t.Signature, "chan": t.Chan, "kind": "",
+	}
+	if t.Basic {
+		d["kind"] = t.BasicType.Name()
+	}
+	if depth > 0 {
+		switch {
+		case t.Pointer:
+			d["e"] = Describe(t.PointerInner, depth-1)
+		case t.List:
+			d["e"] = Describe(t.ListInner, depth-1)
+		}
+	}
+	return d
+}
